@@ -9,6 +9,7 @@ CONSTANT RoleMenu <- RM0
 CONSTANT DocMenu <- DMa1
 CONSTANT Lims <- L0
 CONSTANT MaxSteps = 1000000
+CONSTANT Thin = 1
 CONSTANT PageGap = TRUE
 SPECIFICATION PSpec
 CONSTRAINT Progress
